@@ -77,14 +77,27 @@ def validator_expectations(lines, obs):
         elif t[0] == "mkstock" and t[1] in dsets:
             own = dsets[t[1]]
             ok = bool(own) and own[0].split(":")[1] == t[2]
+            loose = False
             for r in t[3:]:
+                if r.startswith("p:"):
+                    # an object handed over as it is: with other dimensions it must be refused; whether an
+                    # array of another class with the right dimensions is taken is not the property's business
+                    other = arrd.get(r.split(":", 2)[2])
+                    if other is not None and other == own and r.startswith("p:other:"):
+                        loose = True
+                    if other is None:
+                        ok = None
+                        break
+                    if other != own:
+                        ok = False
+                    continue
                 other = arrd.get(r[2:]) if r.startswith("a:") else dsets.get(r[2:])
                 if other is None:
                     ok = None
                     break
                 if other != own:
                     ok = False
-            if ok is None:
+            if ok is None or (ok and loose):
                 continue
             if ok and ob != "ok":
                 return fail(ln, "a stock over matching dimensions (time first) is accepted", "ok", ob)
